@@ -1864,6 +1864,9 @@ private:
    bool _storedBasis;
    int _beforeLiftRows;
    int _beforeLiftCols;
+   DataArray<int> _liftedEntryRows;   ///< row indices of the matrix entries that lifting moved to lifting columns
+   DataArray<int> _liftedEntryCols;   ///< column indices of these entries
+   VectorRational _liftedEntryVals;   ///< their original values, restored by _project()
 
    /// type of bounds and sides
    typedef enum
